@@ -89,6 +89,15 @@ func ruleNUMSTATE1(c *Ctx) {
 	c.Oblige("resume-states", f.Pos(), len(bad) == 0, strings.Join(bad, "; "))
 }
 
+var helperResultSrcImpl func(info *types.Info, root ast.Node, v types.Object, def ast.Expr, depth int) (bool, string)
+
+func helperResultSrc(info *types.Info, root ast.Node, v types.Object, def ast.Expr, depth int) (bool, string) {
+	if helperResultSrcImpl == nil {
+		return false, ""
+	}
+	return helperResultSrcImpl(info, root, v, def, depth)
+}
+
 func ruleNUMCONV1(c *Ctx) {
 	p := c.P
 	n := 0
@@ -126,6 +135,12 @@ func ruleNUMCONV1(c *Ctx) {
 			}
 			for _, d := range defs {
 				if ok, why := src(info, root, d, depth+1); !ok {
+					// one result of a repo helper: what the helper returns in that position
+					if okH, whyH := helperResultSrc(info, root, v, d, depth); okH {
+						continue
+					} else if whyH != "" {
+						why = whyH
+					}
 					return false, why
 				}
 			}
@@ -138,6 +153,52 @@ func ruleNUMCONV1(c *Ctx) {
 		return false, "`" + exprString(e) + "`"
 	}
 	_ = okSource
+	helperResultSrcImpl = func(info *types.Info, root ast.Node, v types.Object, def ast.Expr, depth int) (bool, string) {
+		call, ok := ast.Unparen(def).(*ast.CallExpr)
+		if !ok || depth > 3 {
+			return false, ""
+		}
+		cf := Callee(info, call)
+		if cf == nil {
+			return false, ""
+		}
+		g := p.FuncOf(cf)
+		if g == nil || g.Body() == nil || g.Pkg == nil || g.Pkg.PkgPath != pkgAlias["json"] {
+			return false, ""
+		}
+		idx := -1
+		ast.Inspect(root, func(n ast.Node) bool {
+			if as, ok := n.(*ast.AssignStmt); ok && len(as.Rhs) == 1 && ast.Unparen(as.Rhs[0]) == ast.Expr(call) {
+				for i, l := range as.Lhs {
+					if IdentObj(info, l) == v {
+						idx = i
+					}
+				}
+			}
+			return true
+		})
+		if idx < 0 {
+			return false, ""
+		}
+		nret := 0
+		why := ""
+		InspectNoLit(g.Body(), func(n ast.Node) bool {
+			r, ok := n.(*ast.ReturnStmt)
+			if !ok {
+				return true
+			}
+			nret++
+			if idx >= len(r.Results) {
+				why = "helper " + cf.Name() + " uses a bare return"
+				return true
+			}
+			if okR, w := src(g.Info(), g.Body(), r.Results[idx], depth+1); !okR {
+				why = "helper " + cf.Name() + " returns " + w
+			}
+			return true
+		})
+		return nret > 0 && why == "", why
+	}
 	for _, f := range p.FuncsIn("json") {
 		if f.Body() == nil {
 			continue
